@@ -87,7 +87,8 @@ def k2srv (t : Tokens) : String :=
       match r.out with
       | .connErr => (acc, true)
       | .protoErr tag => go fuel r.rest (acc ++ [s!"{tag}:7"])
-      | .msg tag d _ => go fuel r.rest (acc ++ [if d.typ == 24 || d.typ == 120 || d.typ == 116 then s!"{tag}:7" else s!"{tag}:unmodelled"])
+      | .msg tag d _ => go fuel r.rest (acc ++ [if d.typ == 24 || d.typ == 120 || d.typ == 116 then s!"{tag}:7"
+          else if d.typ == 108 then s!"{tag}:109" else s!"{tag}:unmodelled"])
   let (rs, ended) := go (s.length / 7 + 2) s []
   s!"replies={",".intercalate rs} lost=0 ended={if ended then 1 else 0} extra=0"
 
